@@ -6,6 +6,7 @@ import Dhlldv.Spec.SlurryObj
 import Dhlldv.Spec.Memo
 import Dhlldv.Spec.Pipeline
 import Dhlldv.Spec.Fracs
+import Dhlldv.Spec.Workbook
 import Dhlldv.Gen.Effects
 
 /-! Line-protocol dispatcher over the hand-written Spec models. -/
@@ -31,6 +32,39 @@ def parseSecs (ts : List String) (n : Nat) (acc : List (Spec.Pipe.Sec Float)) : 
   match parseSecsRest ts n acc with
   | some (s, []) => some s
   | _ => none
+
+def unhex (s : String) : String :=
+  let cs := s.toList
+  let rec go : List Char → List Char → List Char
+    | a :: b :: rest, acc =>
+      let d := fun (c : Char) => if c.isDigit then c.toNat - 48 else c.toNat - 87
+      go rest (Char.ofNat (d a * 16 + d b) :: acc)
+    | _, acc => acc.reverse
+  String.ofList (go cs [])
+
+def extractedReqs : List Spec.Workbook.Req :=
+  Effects.excelRequireds.map fun r => { type := r.1, required := r.2.1, scalars := r.2.2.1, tables := r.2.2.2 }
+
+/-- tokens → workbook: per sheet `S <title> <k>` then k names (`C <name> num|blank|s<hex>` or `T <name> <m> <hdr>…`), then `R <m> <ref>…` -/
+partial def parseWB : List String → List Spec.Workbook.Sheet → Option (List Spec.Workbook.Sheet)
+  | [], acc => some acc.reverse
+  | "S" :: title :: k :: rest, acc =>
+    let rec names : Nat → List String → List (String × Spec.Workbook.Named) → Option (List (String × Spec.Workbook.Named) × List String)
+      | 0, ts, nm => some (nm.reverse, ts)
+      | n + 1, "C" :: name :: v :: ts, nm =>
+        let val := if v == "num" then Spec.Workbook.Val.num else if v == "blank" then Spec.Workbook.Val.blank
+          else Spec.Workbook.Val.str (unhex (v.drop 1).toString)
+        names n ts ((unhex name, .cell val) :: nm)
+      | n + 1, "T" :: name :: m :: ts, nm =>
+        let m := m.toNat!
+        names n (ts.drop m) ((unhex name, .table ((ts.take m).map unhex)) :: nm)
+      | _, _, _ => none
+    match names k.toNat! rest [] with
+    | some (nm, "R" :: m :: ts) =>
+      let m := m.toNat!
+      parseWB (ts.drop m) ({ title := unhex title, names := nm, pumpRefs := (ts.take m).map unhex } :: acc)
+    | _ => none
+  | _, _ => none
 
 def dispatch (op : String) (a : Array String) : Option String :=
   match op with
@@ -147,6 +181,16 @@ def dispatch (op : String) (a : Array String) : Option String :=
     some (match Spec.Fracs.getDx (α := Float) gsd (Gen.fOfBits a[1 + 2 * n]!) with
       | some v => Gen.bitsOf v
       | none => "ValueError")
+  | "spec.wbload" =>
+    match parseWB a.toList [] with
+    | none => none
+    | some wb =>
+      let sc := Effects.excelScalarLookupCatches.contains "KeyError"
+      let tc := Effects.excelTableLookupCatches.contains "KeyError"
+      some (match Spec.Workbook.load sc tc Effects.excel_dangling_pump_checked Effects.excel_curve_without_driver_checked extractedReqs wb with
+        | .ok _ => "ok"
+        | .error (.invalidExcel _) => "InvalidExcelError"
+        | .error (.other c) => "other:" ++ c)
   | _ => none
 
 end Spec
